@@ -63,7 +63,7 @@ def Collector.finish (c : Collector) : Collector × Option SrvErr :=
 
 /-- `OutputCollector.ClientLog`: no level filter, no request id. -/
 def Collector.clientLog (c : Collector) (lc : LogCall) : Collector :=
-  { c with batches := c.batches ++ [.log lc.level lc.msg (mapOfKVs lc.extras) none] }
+  { c with batches := c.batches ++ [.log lc.level lc.msg (wireExtras (mapOfKVs lc.extras)) none] }
 
 /-! ### Turn scripts -/
 
